@@ -159,6 +159,16 @@ func c09Run(t *testing.T, sc c09Scenario, f *c09Fault) (outcome string, held []s
 		}
 		if f != nil {
 			switch f.site {
+			case "storage-after":
+				// the context ends right AFTER the k-th storage call has returned (a cancellation that
+				// arrives as the lock is granted, as a value is stored …)
+				fired := false
+				e.st.After = func(n int, kind, key string) {
+					if !fired && n-base == f.k && kind != "Unlock" {
+						fired = true
+						e.cancel()
+					}
+				}
 			case "storage":
 				fired := false
 				e.st.Fault = func(n int, kind, key string) error {
@@ -235,6 +245,9 @@ func TestVerifC09(t *testing.T) {
 			for _, kind := range []string{"err", "panic", "cancel"} {
 				faults = append(faults, c09Fault{"storage", k, kind})
 			}
+		}
+		for k := 1; k <= ns; k++ {
+			faults = append(faults, c09Fault{"storage-after", k, "cancel"})
 		}
 		for k := 1; k <= ni; k++ {
 			for _, kind := range []string{"err", "panic", "cancel"} {
